@@ -116,7 +116,7 @@ def enclosing_fn(src, pos):
 def arms(body):
     """match arms `Pat | Pat => expr,` of a fn body -> [(patterns, expr)]"""
     out = []
-    for m in re.finditer(r'((?:[A-Z]\w*::\w+(?:\s*\([^)]*\)|\s*\{[^}]*\})?\s*\|?\s*)+|_\s*)=>\s*(\{[^}]*\}|[^,\n]*(?:\([^)]*\))?[^,\n]*),?', body):
+    for m in re.finditer(r'((?:[A-Z]\w*::\w+(?:\s*\([^)]*\)|\s*\{[^}]*\})?\s*\|?\s*)+|_\s*)=>\s*(vec!\[[^\]]*\]|Vec::new\(\)|\{[^}]*\}|\w+\([^)]*\))', body):
         pats = [re.sub(r'\s+', ' ', p.strip()) for p in m.group(1).split('|') if p.strip()]
         out.append((pats, m.group(2).strip()))
     return out
